@@ -16,6 +16,9 @@ part ops : ["wrap", kind]  kind in def|async|method|if|try|with|for|nested|while
            ["quote", k, s]  k-th plain string literal: delimiters flipped / the other quote character put inside
            ["tuplerhs",k,s] k-th simple assignment gets a bare-tuple or lambda right-hand side
            ["insetlist",k]  k-th statement-level call is wrapped in set([...]) (a use-set-literal site on the same line)
+           ["widenimport",k] k-th import statement gets two more (unused) names
+           ["parenbreak",k] k-th single-line operator chain is parenthesised and broken before each operator
+           ["bodyhead",k,s] k-th function body gets a compound statement (for/if/with/try/def) or a docstring as first statement
            ["nonascii", k]  non-ASCII string statement in front of the k-th single-line call, on the same line
            ["breakattr", k] k-th `a.b(args)` -> `(a` newline `.b(args))`
            ["kwcall", k]    k-th call with keywords gets `_p=_other(<copies of its keywords>)`: same keyword names on an unrelated nested call
@@ -489,6 +492,117 @@ def op_insetlist(code, k):
     return "".join(lines)
 
 
+def op_bodyhead(code, k, style):
+    """The body of the k-th function (multi-line body) gets a compound statement / docstring as its first statement."""
+    try:
+        tree = ast.parse(code)
+    except SyntaxError:
+        return code
+    fns = [n for n in ast.walk(tree) if isinstance(n, (ast.FunctionDef, ast.AsyncFunctionDef)) and n.body and n.body[0].lineno > n.lineno
+           and not any(isinstance(d, ast.Name) and d.id == "overload" for d in n.decorator_list)]
+    if not fns:
+        return code
+    fns.sort(key=lambda n: (n.lineno, n.col_offset))
+    fn = fns[k % len(fns)]
+    first = fn.body[0]
+    lines = code.splitlines(keepends=True)
+    raw = lines[first.lineno - 1]
+    indent = raw[: len(raw) - len(raw.lstrip(" \t"))]
+    unit = "\t" if indent.endswith("\t") else "    "
+    head = {
+        "for": f"{indent}for _cmv_i in ():\n{indent}{unit}pass\n",
+        "if": f"{indent}if __debug__:\n{indent}{unit}pass\n",
+        "with": f"{indent}with open(__file__) as _cmv_f:\n{indent}{unit}pass\n",
+        "try": f"{indent}try:\n{indent}{unit}pass\n{indent}finally:\n{indent}{unit}pass\n",
+        "def": f"{indent}def _cmv_inner():\n{indent}{unit}return None\n",
+        "docstring": f'{indent}"""doc."""\n',
+    }[style]
+    if style == "docstring" and isinstance(first, ast.Expr) and isinstance(first.value, ast.Constant) and isinstance(first.value.value, str):
+        return code
+    # a decorator / multi-line first statement starts at first.lineno (decorated inner defs start at the decorator)
+    start = min([first.lineno] + [d.lineno for d in getattr(first, "decorator_list", [])])
+    lines.insert(start - 1, head)
+    return "".join(lines)
+
+
+def op_widenimport(code, k):
+    """k-th single-line import statement gets two more (unused) names: `import a` -> `import a, _cmv_m1, _cmv_m2 as
+    _cmv_al`, `from m import a` -> `from m import a, _cmv_n1, _cmv_n2`."""
+    try:
+        tree = ast.parse(code)
+    except SyntaxError:
+        return code
+    imps = [n for n in ast.walk(tree) if isinstance(n, (ast.Import, ast.ImportFrom)) and n.lineno == n.end_lineno
+            and not (isinstance(n, ast.ImportFrom) and (n.module == "__future__" or any(a.name == "*" for a in n.names)))]
+    if not imps:
+        return code
+    imps.sort(key=lambda n: (n.lineno, n.col_offset))
+    n = imps[k % len(imps)]
+    lines = code.splitlines(keepends=True)
+    pre, txt, post = _byte_slice(lines[n.lineno - 1], n.col_offset, n.end_col_offset)
+    if txt.rstrip().endswith(")") or ";" in post:
+        return code
+    extra = ", _cmv_m1, _cmv_m2 as _cmv_al" if isinstance(n, ast.Import) else ", _cmv_n1, _cmv_n2"
+    lines[n.lineno - 1] = pre + txt + extra + post
+    return "".join(lines)
+
+
+def op_parenbreak(code, k):
+    """k-th single-line binary-operator chain used as a whole right-hand side / argument / return value is put in
+    parentheses and broken before each top-level operator:  `x = a + b + c`  ->  `x = (a` / `    + b` / `    + c)`."""
+    try:
+        tree = ast.parse(code)
+    except SyntaxError:
+        return code
+    cands = []
+    for n in ast.walk(tree):
+        vals = []
+        if isinstance(n, (ast.Assign, ast.Return, ast.Expr)) and n.value is not None:
+            vals = [n.value]
+        elif isinstance(n, ast.Call):
+            vals = list(n.args) + [kw.value for kw in n.keywords]
+        for v in vals:
+            if isinstance(v, ast.BinOp) and v.lineno == v.end_lineno:
+                cands.append(v)
+    if not cands:
+        return code
+    cands.sort(key=lambda n: (n.lineno, n.col_offset))
+    v = cands[k % len(cands)]
+    # operands of the left-associative chain with the same precedence class at top level
+    chain = []
+    node = v
+    while isinstance(node, ast.BinOp):
+        chain.append(node.right)
+        node = node.left
+    chain.append(node)
+    chain.reverse()
+    lines = code.splitlines(keepends=True)
+    line = lines[v.lineno - 1]
+    pre, txt, post = _byte_slice(line, v.col_offset, v.end_col_offset)
+    raw = line.encode("utf-8")
+    indent = line[: len(line) - len(line.lstrip(" \t"))] + "    "
+    pieces = []
+    for i, operand in enumerate(chain):
+        a = chain[i - 1].end_col_offset if i else v.col_offset
+        # text from the end of the previous operand (operator included) to the end of this one; parentheses around an
+        # operand lie between the two offsets and travel with the operator text
+        end = operand.end_col_offset if i < len(chain) - 1 else v.end_col_offset
+        seg = raw[a:end].decode("utf-8")
+        # closing parentheses of a parenthesised left operand belong to the previous piece
+        if i:
+            j = 0
+            while j < len(seg) and seg[j] in ") ":
+                j += 1
+            closing = seg[:j].replace(" ", "")
+            if closing:
+                pieces[-1] += closing
+            seg = seg[j:]
+        pieces.append(seg.strip())
+    new = "(" + pieces[0] + "".join("\n" + indent + p for p in pieces[1:]) + ")"
+    lines[v.lineno - 1] = pre + new + post
+    return "".join(lines)
+
+
 def op_kwcall(code, k):
     """k-th single-line call that has keyword arguments gets one more keyword whose value is an unrelated call
     carrying copies of the same keywords: `f(a, verify=False)` -> `f(a, verify=False, _p=_other(verify=False))`."""
@@ -612,13 +726,13 @@ def render_part(part, i):
             new, dl, dc = (op_sameline if op[0] == "sameline" else op_nest)(code, op[1]), 0, 0
             if doc is not None:  # columns of the reported locations would no longer be known
                 new = code
-        elif op[0] in ("addarg", "quote", "tuplerhs"):
-            fn = {"addarg": op_addarg, "quote": op_quote, "tuplerhs": op_tuplerhs}[op[0]]
+        elif op[0] in ("addarg", "quote", "tuplerhs", "bodyhead"):
+            fn = {"addarg": op_addarg, "quote": op_quote, "tuplerhs": op_tuplerhs, "bodyhead": op_bodyhead}[op[0]]
             new, dl, dc = fn(code, op[1], op[2]), 0, 0
             if doc is not None:
                 new = code
-        elif op[0] in ("nonascii", "breakattr", "kwcall", "dictsplat", "insetlist"):
-            new, dl, dc = {"nonascii": op_nonascii, "breakattr": op_breakattr, "kwcall": op_kwcall, "dictsplat": op_dictsplat, "insetlist": op_insetlist}[op[0]](code, op[1]), 0, 0
+        elif op[0] in ("nonascii", "breakattr", "kwcall", "dictsplat", "insetlist", "widenimport", "parenbreak"):
+            new, dl, dc = {"nonascii": op_nonascii, "breakattr": op_breakattr, "kwcall": op_kwcall, "dictsplat": op_dictsplat, "insetlist": op_insetlist, "widenimport": op_widenimport, "parenbreak": op_parenbreak}[op[0]](code, op[1]), 0, 0
             if doc is not None:
                 new = code
         elif op[0] == "mlimport":
@@ -785,6 +899,9 @@ def part_ops():
             st.tuples(st.just("kwcall"), st.integers(0, 3)).map(list),
             st.tuples(st.just("dictsplat"), st.integers(0, 3)).map(list),
             st.tuples(st.just("insetlist"), st.integers(0, 3)).map(list),
+            st.tuples(st.just("widenimport"), st.integers(0, 3)).map(list),
+            st.tuples(st.just("parenbreak"), st.integers(0, 3)).map(list),
+            st.tuples(st.just("bodyhead"), st.integers(0, 3), st.sampled_from(["for", "if", "with", "try", "def", "docstring"])).map(list),
             st.tuples(st.just("sameline"), st.integers(0, 5)).map(list),
             st.tuples(st.just("nest"), st.integers(0, 5)).map(list),
             st.tuples(st.just("addarg"), st.integers(0, 5), st.sampled_from(["pos", "kw", "star", "comma"])).map(list),
